@@ -521,16 +521,16 @@ func checkC10(r *Run) {
 		r5.Lost("(*signaller) look-ups", "no function deletes a waiter from the signaller")
 	}
 	// ---- R-C10-6
-	idAcc := byField["BaseClient.idLast"]
-	okAtomic := len(idAcc) > 0
-	for _, acc := range idAcc {
-		if !acc.Atom {
+	im := c.idModel()
+	okAtomic := len(im.Accesses) > 0
+	for _, acc := range im.Accesses {
+		if acc.Kind == "plain" || acc.Kind == "escape" {
 			okAtomic = false
 			r6.Bad("BaseClient.idLast", acc.In.Pos(), "non-atomic access to the id counter in %s", FuncName(acc.Fn))
 		}
 	}
 	if okAtomic {
-		r6.OK("BaseClient.idLast", idAcc[0].In.Pos(), "%d accesses, all operands of sync/atomic calls", len(idAcc))
+		r6.OK("BaseClient.idLast", im.Accesses[0].In.Pos(), "%d accesses, all operands of sync/atomic calls", len(im.Accesses))
 	}
 	_ = fmt.Sprintf
 }
